@@ -9,6 +9,7 @@ from . import pyval
 from .ops import ival, norm_index
 
 BUILTINS = {}
+OPTKW_MODELS = set()      # class models that resolve OptKw keywords themselves
 CLASS_MODELS = {}
 EXTERNAL_CLASSES = set()
 
